@@ -395,6 +395,33 @@ func c06Check1(k c06Case) (string, string) {
 			if !visited || ferr != nil || fport != k.Port || !bytes.Equal(fip, wantIP) {
 				return k.Kind + "-roundtrip/inside-ForEach", fmt.Sprintf("attr %#x read from inside a ForEach callback: %v:%d err %v (visited %v), the message carries %v:%d (tid %x)", k.Attr, fip, fport, ferr, visited, net.IP(wantIP), k.Port, k.TID)
 			}
+			// the attribute twice (the address, then another one), a ForEach whose callback fails at the second visit:
+			// the getter still reads the first, and the attribute list is as it was
+			{
+				var second []byte
+				if k.Kind == "xor" {
+					second = ref.EncodeXORMappedAddress(ref.Addr{IP: decoyIP, Port: 7}, tid)
+				} else {
+					second = ref.EncodeMappedAddress(ref.Addr{IP: decoyIP, Port: 7})
+				}
+				two := ref.Encode(ref.TypeWord(1, 2), tid, []ref.EncodeAttr{{Type: 0x8022, Value: []byte("sw")}, {Type: k.Attr, Value: wantVal}, {Type: k.Attr, Value: second}})
+				d2, derr := decodeCopy(two)
+				if derr != nil {
+					return k.Kind + "-redecode", derr.Error()
+				}
+				before := fmt.Sprint(d2.Attributes)
+				visits := 0
+				_ = d2.ForEach(at, func(*stun.Message) error {
+					visits++
+					if visits == 2 {
+						return errC02Stop
+					}
+					return nil
+				})
+				if ip, port, e := read(d2); e != nil || port != k.Port || !bytes.Equal(ip, wantIP) || fmt.Sprint(d2.Attributes) != before {
+					return k.Kind + "-roundtrip/after-a-failing-ForEach", fmt.Sprintf("attr %#x twice in a message, ForEach whose callback failed at the second visit (%d visits): the getter then reads %v:%d err %v, the first one carries %v:%d; attribute list unchanged: %v", k.Attr, visits, ip, port, e, net.IP(wantIP), k.Port, fmt.Sprint(d2.Attributes) == before)
+				}
+			}
 		}
 		// (iv) the reference decoder reads the library's bytes
 		v, _ := m.Get(at)
